@@ -86,7 +86,11 @@ func (g *G) VarName() string {
 			n += fmt.Sprint(g.R.Intn(1000))
 		}
 		if !g.P.PlainNames && g.R.Chance(1, 6) {
-			n += fmt.Sprintf("[%d]", g.R.Intn(12))
+			if g.R.Chance(1, 4) {
+				n += fmt.Sprintf("[%0*d]", 2+g.R.Intn(2), g.R.Intn(12)) // v[07] and v[7] are two names
+			} else {
+				n += fmt.Sprintf("[%d]", g.R.Intn(12))
+			}
 			if g.R.Chance(1, 3) {
 				n += fmt.Sprintf("[%d]", g.R.Intn(3))
 			}
